@@ -1,4 +1,5 @@
 import BigDec.Generated
+import BigDec.Model.NumDigits
 /-! Executable model of the low-level routines of bigdecimal-rs
     (src/arithmetic/mod.rs, the scale-changing methods of src/lib.rs).
     Core Lean only.  Thresholds come from `BigDec.Generated`, which is regenerated from the
@@ -34,12 +35,6 @@ def tenToTheUint (pow : Nat) : Nat :=
       if rem == 0 then res else res * tenPowU64 rem
     else 0 -- the Rust code would recurse forever (divisor ≤ 1); unreachable for the real constants
 termination_by pow
-
-/-- number of decimal digits of `n` (1 for zero): the *specification* of
-    `count_decimal_digits_uint` -/
-def numDigits (n : Nat) : Nat :=
-  if n < 10 then 1 else numDigits (n / 10) + 1
-decreasing_by omega
 
 /-- the counting loop of `count_decimal_digits_uint`: `while uint >= num { num *= 10; digits += 1 }` -/
 def countLoop (n : Nat) : Nat → Nat → Nat → Nat
